@@ -21,6 +21,12 @@ def make_rows(scn):
     cols = HEADER.split(",") + (["note"] if scn.get("extra_col") else [])
     rows = []
     for j, (a, nops) in enumerate(zip(scn["arrivals"], scn["nops"])):
+        if scn.get("sci") and (j % 2 == 0 or len(a.strip("0.-")) == 1):
+            # the same number in exponent notation ('5e-05', '1.25e+1', '3E-4'): what float() and csv writers of other
+            # tools produce for small values
+            from decimal import Decimal
+            m, _, e = format(Decimal(a).normalize(), "e").partition("e")
+            a = "%s%s%s%02d" % (m, "E" if j % 4 == 0 else "e", "-" if int(e) < 0 else "+", abs(int(e)))
         for i in range(nops):
             r = {"pipeline_id": scn.get("id_prefix", "p") + str(j + 1), "arrival_seconds": a if i == 0 else "",
                  "priority": PRIOS[(j + i) % 3] if i == 0 else "", "operator_id": "op%d" % (i + 1),
@@ -421,8 +427,15 @@ def gen_scn(r, family, tier):
             s = arrivals[-1]
         arrivals.append(s)
         t = frac(s)
+    sci = r.random() < 0.2
+    if sci:
+        # values that exponent notation writes without a decimal point: one significant digit
+        extra = [fstr(F(r.randint(1, 9), 10 ** r.randint(1, 6)) + (int(frac(arrivals[0])) if r.random() < 0.3 else 0))
+                 for _ in range(r.randint(1, 5))]
+        arrivals = sorted(arrivals + extra, key=frac)
     scn = {"kind": family, "tps": tps, "arrivals": arrivals, "nops": [r.choice([1, 1, 2, 4]) for _ in arrivals],
-           "extra_col": r.random() < 0.4, "id_prefix": r.choice(["p", "pipe-", "q"]), "via_main": r.random() < 0.3}
+           "extra_col": r.random() < 0.4, "id_prefix": r.choice(["p", "pipe-", "q"]), "via_main": r.random() < 0.3,
+           "sci": sci}
     if family == "jitter":
         if r.random() < 0.35:
             # jitter must sort whatever it is given: also feed it traces that are not in arrival order
